@@ -65,7 +65,7 @@ func run(c *hlib.Ctx) {
 	// 4. synthetic leaves
 	g.genSynth(share(35))
 	// 5. real geometry
-	g.genReal(share(25))
+	g.genReal(share(50))
 	// 6. k-d trees
 	g.genKD(2 * share(15))
 }
